@@ -23,7 +23,7 @@
 using namespace squids;
 
 // ------------------------------------------------------------------ ledger
-static const int MAXB = 96;
+static const int MAXB = 256;
 struct LedgerEntry { void* p; int id; };     // id > 0: library block, id = -1: allocated outside a call window
 static LedgerEntry ledger[4096];
 static int nledger = 0;
